@@ -66,22 +66,22 @@ def make_grid(nlow, nhigh, xmin):
     return [float(x) for x in np.concatenate([low, high])]
 
 
-def toy(rng, active, polarized, qed):
+def toy(rng, active, polarized, qed, shift=0.0):
     """Flavour-basis f(x) (not x f) on demand; valence-like pieces fall like x^(a-1) with a>=0.8."""
     par = {}
     for q in range(1, 7):
         if q > active:
             par[q] = None
             continue
-        sea = (float(rng.uniform(0.05, 0.4)), float(rng.uniform(0.8, 1.3)) if polarized else float(rng.uniform(0.0, 0.4)), float(rng.uniform(5, 9)))
+        sea = (float(rng.uniform(0.05, 0.4)), float(rng.uniform(0.8, 1.3)) if polarized else float(rng.uniform(0.1, 0.4)), float(rng.uniform(5, 9)))
         val = (float(rng.uniform(0.5, 3.0)) if q <= 2 or polarized or rng.random() < 0.3 else 0.0, float(rng.uniform(0.8, 1.3)), float(rng.uniform(2.5, 5)))
         par[q] = (sea, val)
-    g = (float(rng.uniform(1, 4)), float(rng.uniform(0.8, 1.3)) if polarized else float(rng.uniform(0.0, 0.3)), float(rng.uniform(4, 8)))
+    g = (float(rng.uniform(1, 4)), float(rng.uniform(0.8, 1.3)) if polarized else float(rng.uniform(0.1, 0.3)), float(rng.uniform(4, 8)))
     ph = (float(rng.uniform(0.005, 0.03)), 0.1, 4.0)
 
     def shape(p, x):
         A, a, b = p
-        return A * x ** (a - 1.0) * (1 - x) ** b
+        return A * x ** (a + shift - 1.0) * (1 - x) ** b
 
     def f(pid, x):
         x = np.asarray(x, float)
@@ -121,7 +121,8 @@ def run_case(cfg):
     out = []
     for rep in range(cfg["_replicas"]):
         # linear interpolation cannot resolve steep small-x shapes on an affordable grid: valence-like inputs there
-        f, par = toy(rng, nf0, polarized or not cfg.get("is_log", True), qed)
+        lin = not cfg.get("is_log", True)
+        f, par = toy(rng, nf0, polarized or lin, qed, shift=0.3 if lin else 0.0)
         fin = np.array([f(pid, xs) for pid in PIDS])  # [pid, x]
         fin[:, -1] = 0.0  # f(1) = 0
         for (mu2, nf), (o, err) in res.items():
@@ -172,7 +173,7 @@ def configs(ck):
             # fixed number of flavours: move the other walls out of the way
             masses = {3: [150.0, 160.0, 172.5], 4: [1.0, 150.0, 172.5], 5: [1.0, 1.2, 172.5]}[nf0]
             mu0 = float(np.exp(rng.uniform(np.log(1.5), np.log(10.0))))
-            fac = float(rng.uniform(2.0, 8.0))
+            fac = float(rng.uniform(2.0, 4.0))
             mu1 = mu0 * fac if up else max(mu0 / min(fac, 2.5), 1.35)
         return dict(
             qcd=qcd, qed=qed, method=method, pt=pt, init=[mu0, nf0], targets=[[mu1, nff]], masses=masses, ratios=[1.0, 1.0, 1.0],
@@ -184,7 +185,7 @@ def configs(ck):
     ck_cores = -1 if ck.quick else 4  # solves are expensive: use the library's own pool
     if ck.quick:
         cfgs += [base(1, 0, "unpol", 4, 4, True), base(2, 0, "unpol", 4, 5, True), base(1, 0, "pol", 3, 3, True)]
-        lin = base(1, 0, "unpol", 4, 4, True, nlow=10, nhigh=14, xmin=1e-3)
+        lin = base(1, 0, "unpol", 4, 4, True, nlow=14, nhigh=14, xmin=1e-4)
         lin["is_log"] = False  # polynomial-in-x interpolation declared in the card must be honoured and conserve as well
         lin["targets"] = [[lin["init"][0] * 2.0, 4]]
         cfgs.append(lin)
@@ -192,7 +193,7 @@ def configs(ck):
         for qcd in (1, 2, 3):
             cfgs += [base(qcd, 0, "unpol", 4, 4, True), base(qcd, 0, "unpol", 4, 5, True), base(qcd, 0, "unpol", 4, 4, False, method="truncated"), base(qcd, 0, "pol", 3, 3, True), base(qcd, 0, "pol", 4, 5, True)]
         for q in (1, 2):
-            lin = base(q, 0, "unpol", 4, 4, True, nlow=10, nhigh=14, xmin=1e-3)
+            lin = base(q, 0, "unpol", 4, 4, True, nlow=14, nhigh=14, xmin=1e-4)
             lin["is_log"] = False
             lin["targets"] = [[lin["init"][0] * 2.0, 4]]
             cfgs.append(lin)
@@ -206,6 +207,7 @@ def run(ck):
         cfgs = [ck.replay["witness"]["cfg"]]
     workers = 1 if ck.quick else 4
     worst = {}
+    worst_cfg = {}
     for cfg, st, res in jobs.pmap(run_case, cfgs, workers=workers, timeout=ck.n(3000, 6 * 3600), item_timeout=ck.n(2400, 3 * 3600)):
         ckey = w.cfg_key({k: v for k, v in cfg.items()})
         if st != "ok":
@@ -224,6 +226,8 @@ def run(ck):
                 ck.hit("moments_compared")
                 kq = "valence" if chk["q"].startswith("valence") else chk["q"]
                 worst[kq] = max(worst.get(kq, 0.0), chk["rel"] if chk["scale"] >= 0.05 else 0.0)
+                ctag = f"{kq}|{cfg['pt']}|order{cfg['qcd']}{cfg['qed']}|{'log' if cfg.get('is_log', True) else 'lin'}|nf{cfg['init'][1]}->{rec['target'][1]}"
+                worst_cfg[ctag] = max(worst_cfg.get(ctag, 0.0), chk["rel"] if chk["scale"] >= 0.05 else 0.0)
                 key = (ckey, rec["replica"], tuple(rec["target"]), chk["q"])
                 small = chk["q"].startswith("valence") and chk["scale"] < 0.05
                 nontriv = (not small) or chk.get("sea", 0) > 0.01
@@ -234,7 +238,7 @@ def run(ck):
                 if bad:
                     kind = "valence" if chk["q"].startswith("valence") else chk["q"]
                     path = "fixed" if rec["target"][1] == cfg["init"][1] else ("up" if rec["target"][1] > cfg["init"][1] else "down")
-                    ck.violation(f"C05/{kind}/{cfg['pt']}/order{cfg['qcd']}{cfg['qed']}/{path}", f"{chk['q']} changed from {chk['before']:.5g} to {chk['after']:.5g}", dict(cfg=cfg, rec=dict(rec, checks=[chk])))
+                    ck.violation(f"C05/{kind}/{cfg['pt']}/order{cfg['qcd']}{cfg['qed']}/{path}" + ("" if cfg.get("is_log", True) else "/linear-interpolation"), f"{chk['q']} changed from {chk['before']:.5g} to {chk['after']:.5g}", dict(cfg=cfg, rec=dict(rec, checks=[chk])))
                 else:
                     ck.ok()
-    ck.note(worst_relative_change=worst)
+    ck.note(worst_relative_change=worst, worst_relative_change_by_config=worst_cfg)
